@@ -2,7 +2,7 @@
 TCB = "Trusted: the harness' VT emulator and gated reader (validated by ./check SELF), the Linux pty line discipline, the Go runtime. Says nothing about inputs/schedules not driven; bounds are in DESIGN.md section 5."
 
 check("C01", "exploration",
-      "Crash / read-storm / deadlock / CPU-and-memory runaway detectors over thousands of PRNG-determined Readline sessions (every bound sequence of every keymap, hostile bytes, EOF/EIO injected at random prefixes; every second session is directed: operator x object x argument key, surround commands and every binding with its argument, on 27 shaped buffers at every cursor position). Held = none of the refuting events on the executions produced.",
+      "Crash / read-storm / deadlock / CPU-and-memory runaway detectors over thousands of PRNG-determined Readline sessions (every bound sequence of every keymap, hostile bytes, EOF/EIO injected at random prefixes; every second session is directed: operator x object x argument key, surround commands and every binding with its argument, on 27 shaped buffers at every cursor position; one session in three binds 1-6 commands that have no default binding to probe keys and uses them). Held = none of the refuting events on the executions produced.",
       TCB, "runtime monitoring: crash/deadlock/spin detectors on real sessions with fault injection", "DESIGN.md 5 C01")
 
 check("C02", "exploration",
